@@ -253,6 +253,10 @@ func (ms *Modules) FindModuleByNamespace(ns string) (*Module, error) {
 		if m.Namespace.Name == ns {
 			switch {
 			case m == found:
+			case found != nil && found.Name == m.Name:
+				// Two revisions of one module: the bare
+				// name denotes the latest one.
+				found = ms.Modules[m.Name]
 			case found != nil:
 				return nil, fmt.Errorf("namespace %s matches two or more modules (%s, %s)",
 					ns, found.Name, m.Name)
